@@ -10,7 +10,8 @@ from harness import crawl
 
 P = 'C20'
 AGENTS = [None, 'MyCrawler/1.0 (+http://example.invalid/bot)', 'Mozilla/5.0 (compatible; archivebot)']
-PREFIXES = ['/d1/', '/d1/d2/', '/other/', '/a.html', '/b.html', '/img/', '/UP/', '/index.html', '/x.html', '/y/', '/static/', '/d1/p']
+PREFIXES = ['/d1/', '/d1/d2/', '/other/', '/a.html', '/b.html', '/img/', '/UP/', '/index.html', '/x.html', '/y/', '/static/', '/d1/p',
+            '/a.html?', '/index.html?id=', '/b.html?id=1', '/d1/p1.html?', '/other/q.html?id=0', '/?']
 
 
 def gen_robots(tape, r):
@@ -81,7 +82,7 @@ def run_c20(tape, r, tier, sandbox):
     # robots per origin
     robots = {}
     for o in site.origins:
-        mode = tape.weighted([(5, 'direct'), (2, 'big'), (1, 'redirect'), (1, '404'), (1, '5xx-k'), (1, '5xx-always')], 'rb.mode')
+        mode = tape.weighted([(5, 'direct'), (2, 'big'), (1, 'redirect'), (1, '404'), (1, '5xx-k'), (1, '5xx-always'), (1, 'reset-k'), (1, 'cut-k')], 'rb.mode')
         text = gen_robots(tape, r)
         if mode == 'big':
             pad = '# ' + 'padding ' * 10 + '\n'
@@ -112,6 +113,16 @@ def run_c20(tape, r, tier, sandbox):
                     r.faults['robots_5xx'] += 1
                     server.send(conn, 503, 'Unavailable', [('Content-Type', 'text/plain')], b'try later')
                     ex['status'] = 503
+                elif mode in ('reset-k', 'cut-k') and st['fetches'] <= st['k']:
+                    # a network fault while robots.txt is being fetched: not an answer at all
+                    r.faults['robots_' + mode] += 1
+                    r.probes['robots_netfault'] += 1
+                    if mode == 'reset-k':
+                        conn.reset()
+                    else:
+                        conn.send(b'HTTP/1.1 200 OK\r\nContent-Type: text/plain\r\nContent-Length: 500\r\n\r\nUser-agent: *\n')
+                        conn.finish()
+                    ex['status'] = 'fault'
                 elif mode == 'redirect':
                     body = b'moved' if st['k'] == 1 else (b'<html><head><title>301 Moved</title></head><body>The document has moved '
                                                           b'<a href="/robots2.txt">here</a>.' + b' padding' * 60 + b'</body></html>')
@@ -153,7 +164,7 @@ def run_c20(tape, r, tier, sandbox):
         o = e['origin']
         st = robots[o]
         ua_sent = (e['fields'].get('user-agent') or [''])[0]
-        path = e['target'].split('?', 1)[0]
+        path = e['target']          # rules may mention the query
         if e.get('robots'):
             # (c) no robots.txt request once it was obtained
             acc = accepted_at[o]
@@ -186,7 +197,7 @@ def run_c20(tape, r, tier, sandbox):
         g = groups[res.origin.key()]
         if g is None:
             return False
-        return refrobots.allowed(g, ua_eff, res.path)
+        return refrobots.allowed(g, ua_eff, res.target)
     ref_rows, expected = crawl.reference_crawl(site, starts, opts, own, allow=allow)
     reqs = {}
     for e in server.log:
@@ -195,7 +206,7 @@ def run_c20(tape, r, tier, sandbox):
     followed = {t for rec in ref_rows.values() for t in rec.get('followed', [])}
     for res in site.order:
         g = groups[res.origin.key()]
-        if g and not refrobots.allowed(g, ua_eff, res.path):
+        if g and not refrobots.allowed(g, ua_eff, res.target):
             offered = True
     if offered:
         r.probes['disallowed_offered'] += 1
